@@ -176,10 +176,13 @@ structure Assembled where
 
 def defaultUserAgent : Bytes := b "fiber"
 
-/-- `host` and `path` of an absolute `http(s)://host[/path][#frag]` (no '?': split off before) -/
+/-- `host` and `path` of an absolute `http(s)://host[/path][?query][#frag]` as `SetRequestURI` /
+    `URI.Parse` split it (the URL's own '?' was split off before; one that a substituted value
+    brings along ends the path here) -/
 def hostPath (u : Bytes) : Bytes × Bytes :=
   let rest := if hasPrefix u (b "https://") then u.drop 8 else u.drop 7
   let rest := (split2 rest 35).1
+  let rest := (split2 rest 63).1
   match indexByte rest 47 with
   | some i => (rest.take i, rest.drop i)
   | none => (rest, [47])
